@@ -205,6 +205,45 @@ def analyse_class(repo, rep, class_q, floors=None, prefix=''):
     for f, node in sites:
       d |= cf.reads(f)
     deps[name] = d - {name}
+  # parametrised memo: a value cached in a field by a function *with parameters* is valid only for the arguments it was
+  # computed from; the test that decides on reuse must look at every parameter the value depends on
+  from mmsa import dataflow as _dfm
+  for name, sites in sorted(memo.items()):
+    for f_, node_ in sites:
+      params_ = [p_ for p_ in f_.params[1:]] if f_.kind != 'static' else list(f_.params)
+      if not params_ or not (node_.kind == 'stmt' and isinstance(node_.ast, ast.Assign)):
+        continue
+      g_ = cf.cfg(f_)
+      rd_m = _dfm.Reaching(g_)
+      try:
+        vx_ = rd_m.expand(node_, node_.ast.value, depth=12, keep=tuple(params_), aliases=True)[0]
+      except Exception:
+        continue
+      used_ = {x_.id for x_ in ast.walk(vx_) if isinstance(x_, ast.Name) and x_.id in params_}
+      sn_ = cf.selfname(f_)
+      alias_ = {s_.targets[0].id for s_ in walk_no_nested(f_.node) if isinstance(s_, ast.Assign) and len(s_.targets) == 1 and isinstance(s_.targets[0], ast.Name)
+                and classfx.self_attr(s_.value, sn_) == name}
+      keyed_ = set()
+      n_tests = 0
+      for t_ in g_.nodes:
+        if t_.kind != 'test':
+          continue
+        tx_ = rd_m.expand(t_, t_.expr, depth=12, keep=tuple(params_) + tuple(alias_))[0]
+        if any(classfx.self_attr(y_, sn_) == name or (isinstance(y_, ast.Name) and y_.id in alias_) for y_ in ast.walk(tx_)):
+          n_tests += 1
+          keyed_ |= {y_.id for y_ in ast.walk(tx_) if isinstance(y_, ast.Name) and y_.id in params_}
+      # a dictionary memo is keyed by its subscript
+      if isinstance(node_.ast.targets[0], ast.Subscript):
+        kx_ = rd_m.expand(node_, node_.ast.targets[0].slice, depth=12, keep=tuple(params_))[0]
+        keyed_ |= {y_.id for y_ in ast.walk(kx_) if isinstance(y_, ast.Name) and y_.id in params_}
+        n_tests += 1
+      if not n_tests:
+        continue
+      missing_ = sorted(used_ - keyed_)
+      rep.check(not missing_, R('R3/memo-key'), '%s: the reuse test of self.%s covers every parameter the cached value depends on (%s)' % (f_.name, name, sorted(used_)),
+                f_.qualname, 'self.%s cached by %s(%s)' % (name, f_.name, ', '.join(params_)),
+                'the value cached in self.%s by %s depends on the parameter(s) %s, which the test deciding on reuse does not look at: a call with other arguments gets the value computed for the earlier ones'
+                % (name, f_.name, ', '.join(missing_)), f_.loc(node_.ast))
   # eagerly derived fields: a field the constructor fills from an expression that reads other (settable) state of the
   # object is a cache of that state just like a lazily filled one; whoever replaces the state must refresh or reset it
   init_f = cls.methods.get('__init__')
